@@ -1227,7 +1227,25 @@ def c05b(ctx):
                 ignore_actions=("AConnectOk",))
     f = ctx.path("ts_patterns.ndjson")
     tcp_drop_patterns(f)
-    tcp_pipeline(ctx, "C05", n_quick=300, extra_files=[f])
+    # "a socket object that is closed and reused starts its next connection with an empty stream": the reuse scenario
+    # with close() of either socket at every handler boundary of the first connection (received-but-unread, reordered,
+    # unsent and in-flight data at the moment of the close), followed by the second connection on the same objects
+    s8 = [x for x in fault_base_scenarios() if x[0] == "S8-reuse"][0][1]
+    fb = ctx.path("ts_reuse_base.ndjson")
+    with open(fb, "w") as fh:
+        fh.write(json.dumps(s8) + "\n")
+    resb, _ = vlib.replay(ctx, "record-tcp", fb, nproc=1)
+    K = resb[0].get("boundaries", 0) if resb and resb[0].get("ok") else 0
+    if K < 20:
+        raise Machinery("reuse base scenario did not run: %s" % resb)
+    fr = ctx.path("ts_reuse.ndjson")
+    with open(fr, "w") as fh:
+        for k in range(1, K + 1):
+            for obj in ("c1", "a1"):
+                p = dict(s8)
+                p["fault"] = {"k": k, "obj": obj, "what": "close"}
+                fh.write(json.dumps(p) + "\n")
+    tcp_pipeline(ctx, "C05", n_quick=300, extra_files=[f, fr])
 
 
 @check("C06", "model_checking")
